@@ -106,6 +106,8 @@ type Exec struct {
 	axioms    int
 	instrs    int64
 	bvInts    bool
+	fpMode    bool    // bit-precise float64 (termfp.go)
+	sch       *gsched // interpreted goroutines of the current path (gorun.go)
 	maxViol   int
 	deadline  time.Time
 	reseeds   int
@@ -153,7 +155,10 @@ func (ex *Exec) RunPath(fn *ssa.Function, trail []int) (res *PathResult, newTrai
 	ex.allClosures = nil
 	ex.res = &PathResult{Observed: map[string]string{}}
 	res = ex.res
-	ex.sol.Reset(ex.bvInts)
+	ex.b.fp = ex.fpMode
+	ex.sol.Reset(ex.bvInts, ex.fpMode)
+	ex.schedReset()
+	defer ex.schedStop()
 
 	func() {
 		defer func() {
@@ -166,7 +171,32 @@ func (ex *Exec) RunPath(fn *ssa.Function, trail []int) (res *PathResult, newTrai
 						res.Undischarged = append(res.Undischarged, "unsupported: "+p.Msg+" @ "+p.Pos)
 						res.Aborted = "unsupported: " + p.Msg
 					} else {
-						ex.violate(Violation{Kind: "panic", Label: p.Kind, Detail: p.Msg, Pos: p.Pos}, nil)
+						// any model of the path condition is an input that panics
+						var m map[string]ModelVal
+						func() {
+							defer func() {
+								if r2 := recover(); r2 != nil {
+									if _, ok := r2.(abortPath); !ok {
+										if _, ok := r2.(*GoPanic); !ok {
+											panic(r2)
+										}
+									}
+								}
+							}()
+							if r, mm := ex.check(nil, ex.wantVars()); r == "sat" {
+								m = mm
+							}
+						}()
+						func() {
+							defer func() {
+								if r2 := recover(); r2 != nil {
+									if _, ok := r2.(abortPath); !ok {
+										panic(r2)
+									}
+								}
+							}()
+							ex.violate(Violation{Kind: "panic", Label: p.Kind, Detail: p.Msg, Pos: p.Pos}, m)
+						}()
 					}
 				case abortPath:
 					res.Aborted = p.why
@@ -496,7 +526,7 @@ func (ex *Exec) zero(t types.Type) Value {
 		}
 		return tv
 	case *types.Chan:
-		return nil
+		return (*ChanV)(nil)
 	}
 	panic(&GoPanic{Kind: "unsupported", Msg: "zero of " + t.String()})
 }
@@ -686,6 +716,9 @@ func fnKey(fn *ssa.Function) string {
 // call runs a function to completion and returns its result (Tuple for multi-value).
 func (ex *Exec) call(fn *ssa.Function, args []Value, fv []Value, site ssa.Instruction) Value {
 	key := fnKey(fn)
+	if in, ok := stdIntrinsics[key]; ok {
+		return in(ex, fn, args, site)
+	}
 	if in, ok := intrinsics[key]; ok {
 		return in(ex, fn, args, site)
 	}
@@ -907,6 +940,43 @@ func (ex *Exec) exec(fr *frame, ins ssa.Instruction) {
 			panic(&GoPanic{Kind: "budget", Msg: fmt.Sprintf("makeslice of %d elements", c), Pos: ex.pos2s(i.Pos())})
 		}
 		fr.env[i] = ex.makeSlice(i.Type().Underlying().(*types.Slice).Elem(), int(n), int(c))
+	case *ssa.MakeChan:
+		fr.env[i] = &ChanV{cap: int(ex.concInt(ex.get(fr, i.Size), "chan size")), elem: i.Type().Underlying().(*types.Chan).Elem()}
+	case *ssa.Send:
+		ex.chanSend(ex.chanOf(ex.get(fr, i.Chan), "send", i), ex.get(fr, i.X), i)
+	case *ssa.Select:
+		fr.env[i] = ex.execSelect(fr, i)
+	case *ssa.Go:
+		c := i.Call
+		args := make([]Value, 0, len(c.Args)+1)
+		var thunk func()
+		if c.IsInvoke() {
+			ifc, ok := ex.get(fr, c.Value).(Iface)
+			if !ok {
+				panic(&GoPanic{Kind: "nil", Msg: "go: method call on nil interface", Pos: ex.pos2s(i.Pos())})
+			}
+			m := ex.prog.LookupMethod(ifc.t, c.Method.Pkg(), c.Method.Name())
+			args = append(args, ifc.v)
+			for _, a := range c.Args {
+				args = append(args, ex.get(fr, a))
+			}
+			thunk = func() { ex.call(m, args, nil, i) }
+		} else {
+			for _, a := range c.Args {
+				args = append(args, ex.get(fr, a))
+			}
+			switch f := c.Value.(type) {
+			case *ssa.Function:
+				thunk = func() { ex.call(f, args, nil, i) }
+			case *ssa.Builtin:
+				cc := c
+				thunk = func() { ex.builtin(f, args, &cc, i) }
+			default:
+				fv := ex.get(fr, c.Value)
+				thunk = func() { ex.callValue(fv, args, i) }
+			}
+		}
+		ex.spawn(thunk)
 	case *ssa.MakeMap:
 		fr.env[i] = &MapV{m: map[interface{}]Value{}}
 	case *ssa.MapUpdate:
@@ -1153,11 +1223,21 @@ func (ex *Exec) builtin(f *ssa.Builtin, args []Value, c *ssa.CallCommon, site ss
 			return int64(len(a))
 		case *Cell:
 			return int64(len(a.v.(*Backing).cells))
+		case *ChanV:
+			if a == nil {
+				return int64(0)
+			}
+			return int64(len(a.buf))
 		}
 	case "cap":
 		switch a := args[0].(type) {
 		case SliceV:
 			return int64(a.c)
+		case *ChanV:
+			if a == nil {
+				return int64(0)
+			}
+			return int64(a.cap)
 		}
 	case "append":
 		s := args[0].(SliceV)
@@ -1216,6 +1296,13 @@ func (ex *Exec) builtin(f *ssa.Builtin, args []Value, c *ssa.CallCommon, site ss
 		}
 		return int64(n)
 	case "print", "println":
+		return nil
+	case "close":
+		c, _ := args[0].(*ChanV)
+		if c == nil || c.closed {
+			panic(&GoPanic{Kind: "explicit", Msg: "close of nil or closed channel", Pos: ex.pos2s(site.Pos())})
+		}
+		c.closed = true
 		return nil
 	case "min", "max":
 		acc := args[0]
@@ -1296,6 +1383,12 @@ func (ex *Exec) anyTerm(v Value) *Term {
 
 func (ex *Exec) unop(i *ssa.UnOp, x Value) Value {
 	switch i.Op {
+	case token.ARROW:
+		v, ok := ex.chanRecv(ex.chanOf(x, "receive", i), i)
+		if i.CommaOk {
+			return Tuple{v, ok}
+		}
+		return v
 	case token.MUL:
 		p := x.(*Cell)
 		if p == nil {
